@@ -77,10 +77,15 @@ def latency_pattern(rng, n):
 
 class MapIterSpec(SeqSpec):
     component = "mapiter"
-    imports = "From Juniper Require Import Common.Base Conc.GoLTS Conc.ParMap.\nImport MI."
+    imports = "From Juniper Require Import Common.Base Conc.GoLTS Conc.ParMap.\nFrom Juniper Require Conc.ParMapMatcherComplete.\nImport MI."
+    # rejections-certified (informational): every rejection is certified genuine by the convergence test (C14_iterator_matcher_exact)
     preamble = ("Definition chk (c : Z * Z * Z * list Z * list bool * list lab) : bool :=\n"
-                "  let '(g, p, b, items, gated, evs) := c in accepts_history (fun x => x * 3 + 7) g p b items gated evs.")
-    checkers = {"M": "chk"}
+                "  let '(g, p, b, items, gated, evs) := c in accepts_history (fun x => x * 3 + 7) g p b items gated evs.\n"
+                "Definition chk_cert (c : Z * Z * Z * list Z * list bool * list lab) : bool :=\n"
+                "  let '(g, p, b, items, gated, evs) := c in accepts_history (fun x => x * 3 + 7) g p b items gated evs\n"
+                "    || ParMapMatcherComplete.MIC.mi_converged (fun x => x * 3 + 7) g p b items gated evs.")
+    checkers = {"M": "chk", "rejections-certified": "chk_cert"}
+    informational = {"rejections-certified"}
 
     def gen_one(self, rng):
         cfg = gen_params(rng)
@@ -240,7 +245,7 @@ class MapIterSpec(SeqSpec):
 
 class MapStreamSpec(SeqSpec):
     component = "mapstream"
-    imports = "From Juniper Require Import Common.Base Conc.GoLTS Conc.ParMap.\nFrom Juniper Require Conc.ParMapMatcher.\nImport MS."
+    imports = "From Juniper Require Import Common.Base Conc.GoLTS Conc.ParMap.\nFrom Juniper Require Conc.ParMapMatcher Conc.ParMapMatcherComplete.\nImport MS."
     # M: the matcher WITHOUT the channel-buffer sorting of MS.canon (ParMapMatcher.MSM.accepts_history_ws, proved sound:
     # ms_ws_accepts_sound). The originally shipped MS.accepts_history sorts the buffer of channel c, which is not a
     # symmetry of the model: it accepts a history no run produces (ms_accepts_sound_refuted) - too permissive, so it
@@ -248,9 +253,12 @@ class MapStreamSpec(SeqSpec):
     preamble = ("Definition chk (c : cfg * list lab) : bool :=\n"
                 "  let '(cf, evs) := c in ParMapMatcher.MSM.accepts_history_ws (fun x => x * 3 + 7) cf evs.\n"
                 "Definition chk_sorted (c : cfg * list lab) : bool :=\n"
-                "  let '(cf, evs) := c in accepts_history (fun x => x * 3 + 7) cf evs.")
-    checkers = {"M": "chk", "sorted-buffer-matcher": "chk_sorted"}
-    informational = {"sorted-buffer-matcher"}
+                "  let '(cf, evs) := c in accepts_history (fun x => x * 3 + 7) cf evs.\n"
+                "Definition chk_cert (c : cfg * list lab) : bool :=\n"
+                "  let '(cf, evs) := c in ParMapMatcher.MSM.accepts_history_ws (fun x => x * 3 + 7) cf evs\n"
+                "    || ParMapMatcherComplete.MSC.ms_ws_converged (fun x => x * 3 + 7) cf evs.")
+    checkers = {"M": "chk", "sorted-buffer-matcher": "chk_sorted", "rejections-certified": "chk_cert"}
+    informational = {"sorted-buffer-matcher", "rejections-certified"}
 
     def gen_one(self, rng):
         cfg = gen_params(rng)
